@@ -34,8 +34,37 @@ def directed_case(rng):
     return [sample], rng.sample(gen.WORDS, k=rng.choice([0, 1])), [r"^k\d$", r"^(id|name)$"]
 
 
+def enc_regex(regex):
+    return [r if isinstance(r, str) else {"pattern": r.pattern, "flags": r.flags} for r in regex]
+
+
+def dec_regex(regex):
+    return [r if isinstance(r, str) else re.compile(r["pattern"], r["flags"]) for r in regex]
+
+
+def compiled_case(rng):
+    """the library API takes patterns "compiled or not": compiled ones carry flags that decide the matches"""
+    kind = rng.choice(["ignorecase", "verbose", "ascii", "same-source"])
+    if kind == "ignorecase":
+        pats = [re.compile(r"^[a-z]+$", re.IGNORECASE)]
+        sample = {"upper": {"AB": 1, "CD": 2}, "lower": {"ab": 1}, "digits": {"12": 1, "x": 2}}
+    elif kind == "verbose":
+        pats = [re.compile(r"^ \d+ $  # digits only", re.VERBOSE)]
+        sample = {"nums": {"1": 1, "22": 2}, "spaced": {" 1 ": 1}, "words": {"ab": 1}}
+    elif kind == "ascii":
+        pats = [re.compile(r"^\w+$", re.ASCII)]
+        sample = {"plain": {"ab": 1, "cd": 2}, "accented": {"né": 1, "straße": 2}}
+    else:
+        pats = [re.compile(r"^[a-z]+$"), re.compile(r"^[a-z]+$", re.IGNORECASE)]
+        sample = {"upper": {"AB": 1, "CD": 2}, "lower": {"ab": 1}, "mixed": {"aB": 1, "cd": 2}}
+    return [sample], rng.sample(gen.WORDS, k=rng.choice([0, 1])), pats
+
+
 def gen_case(rng):
-    if rng.random() < 0.12:
+    r0 = rng.random()
+    if r0 < 0.08:
+        return compiled_case(rng)
+    if r0 < 0.2:
         return directed_case(rng)
     samples = gen.gen_sample_family(rng) if rng.random() < .5 else gen.gen_samples(rng)
     if rng.random() < 0.5:
@@ -161,11 +190,11 @@ def falsify(ctx):
                 hit = {"kind": "raises", "observed": f"{type(e).__name__}: {e}"}
             enc = repr(s)
             applies = any(k in enc for k in fields) or bool(regex)
-            ctx.case((enc, tuple(fields), tuple(regex)), nontrivial=applies and "{" in enc[1:])
+            ctx.case((enc, tuple(fields), tuple(map(str, enc_regex(regex)))), nontrivial=applies and "{" in enc[1:])
             if hit:
-                hit.update({"sample": s, "fields": fields, "regex": regex})
+                hit.update({"sample": s, "fields": fields, "regex": enc_regex(regex)})
                 yield hit
-        ctx.sample({"sample": samples[0], "fields": fields, "regex": regex}, limit=2)
+        ctx.sample({"sample": samples[0], "fields": fields, "regex": enc_regex(regex)}, limit=2)
     # the command-line form of the regular expressions
     for k in range(len(CLI_EXPRS) + ctx.n(10, 200)):
         exprs = [CLI_EXPRS[k]] if k < len(CLI_EXPRS) else rng.sample(CLI_EXPRS, k=rng.randint(2, 3))
@@ -207,7 +236,7 @@ def replay(ctx, hit):
     if hit.get("kind") == "cli-anchoring":
         return check_cli_anchoring(hit["exprs"])
     try:
-        return check_case(hit["sample"], hit["fields"], hit["regex"], stages.make_registry())
+        return check_case(hit["sample"], hit["fields"], dec_regex(hit["regex"]), stages.make_registry())
     except stages.TooCostly:
         raise
     except Exception as e:  # noqa
